@@ -1156,12 +1156,14 @@ fn main() {
     let n3p = alpha3.len() as u64;
     let seq3_texts: &[u8] = if thorough { &SUB5 } else { &SUB2 };
     // thorough: the complete k = 3 space under the default delimiters first (the bound DESIGN asks
-    // for), then the same space re-spelled under D1 and D2 as a separate, budgeted family so that a
-    // loaded machine still completes the first.
+    // for), then the same space re-spelled under D1 and D2 as a separate family so that a loaded
+    // machine still completes the first. Measured 3.7 us of CPU per case: 88 M cases = 20 s and
+    // 176 M = 40 s on 16 free cores; the budgets only bound the wall time on an oversubscribed
+    // machine (a capped family is reported as such, never as exhaustive).
     let seq3_fams: &[(&str, u8, &str, Option<f64>)] = if thorough {
         &[
-            ("seq3", ONLY_D0, "default delimiters", None),
-            ("seq3-respelled", 0b110, "delimiter sets D1 and D2", Some(420.0)),
+            ("seq3", ONLY_D0, "default delimiters", Some(480.0)),
+            ("seq3-respelled", 0b110, "delimiter sets D1 and D2", Some(240.0)),
         ]
     } else {
         &[("seq3", ONLY_D0, "default delimiters", None)]
